@@ -669,6 +669,11 @@ class Gen:
             if r.random() < 0.5:
                 self.meta.append(L.meta_field("owner", r.choice(["team", "me too"])))
         comps = [self.component() for _ in range(n)]
+        ecols = self.cols({"txtE", "numE"})
+        if ecols and r.random() < 0.12:
+            # a variable assigned from a cell that may be empty, then tested for existence: a variable exists unless it is None
+            name = self.fresh("e")
+            comps += [L.assign(L.var(name), self.href(r.choice(ecols))), L.var(name)]
         if "stateful" in self.groups and r.random() < 0.2:
             # one stack fed and drained by several components: 'distinct' and pop() are about the stack as it is NOW
             # (printed stack elements must not be None - IMPL, CHOICES.md: only columns every row reaches when there are print components)
